@@ -363,9 +363,33 @@ def check_active(ctx):
            construct='index of ' + U(s))
     ctx.ob('active-form', fi, s, ok_arr, 'all other cells must be 0 (log of an unconstrained cell): base array must be zeros(%s.shape)' % dom,
            construct='base of ' + U(s))
+    # further forms of the argument (e.g. a boolean mask over the domain): each -inf store of that form must sit under a test that tells the
+    # form apart by TYPE - the shape alone does not (a list of k cells of an r-attribute clique has shape (k, r), which can equal the domain's)
+    for s2 in stores[1:]:
+        ok2 = is_neg_inf(s2.value) and derives(s2.targets[0].slice, zeros) and U(s2.targets[0].value) == U(arr)
+        ctx.ob('active-form', fi, s2, ok2, 'declared-impossible cells must receive -inf, indexed from the zeros argument', construct='second form: ' + U(s2)[:50])
+    for s2 in stores:
+        ix = s2.targets[0].slice
+        seen_ = 0
+        while isinstance(ix, ast.Name) and ix.id in defs and seen_ < 4:
+            ix, seen_ = defs[ix.id], seen_ + 1
+        cell_list = isinstance(ix, ast.Call) and U(ix.func) == 'tuple' and ix.args and isinstance(ix.args[0], ast.Attribute) and ix.args[0].attr == 'T'
+        if cell_list:
+            continue
+        par = getattr(s2, '_parent', None)
+        tests = []
+        while par is not None and par is not fi.node:
+            if isinstance(par, ast.If):
+                tests.append(U(par.test).replace(' ', ''))
+            par = getattr(par, '_parent', None)
+        by_type = any('.dtype==bool' in t or '.dtype==np.bool_' in t or "dtype.kind=='b'" in t or 'issubdtype(' in t and 'bool' in t for t in tests)
+        ctx.ob('active-form', fi, s2, by_type,
+               'the array `%s` is used as a boolean MASK; that reading must be selected by its dtype (`.dtype == bool`), not by its shape: an ordinary '
+               'list of cells whose (count, arity) happens to equal the clique\'s shape would be read as flags; enclosing tests: %s'
+               % (U(s2.targets[0].slice), tests or 'none'), construct='mask form of the zeros argument')
     rets = [r for r in ast.walk(fi.node) if isinstance(r, ast.Return)]
-    ok_ret = len(rets) == 1 and isinstance(rets[0].value, ast.Call) and len(rets[0].value.args) == 2 and \
-        U(rets[0].value.args[0]) == dom and U(rets[0].value.args[1]) == U(arr)
+    ok_ret = bool(rets) and all(isinstance(r.value, ast.Call) and len(r.value.args) == 2 and
+                                U(r.value.args[0]) == dom and U(r.value.args[1]) == U(arr) for r in rets)
     ctx.ob('active-form', fi, rets[0] if rets else fi.node, ok_ret, 'must return the masked array as a factor over `%s`' % dom)
 
 
